@@ -1,0 +1,57 @@
+//go:build verif
+
+// Package verifhook holds the instrumentation points used by the /verif simulation harness.
+// This file is only compiled with the build tag "verif". All hooks are inert until the harness
+// installs a function in the corresponding variable.
+package verifhook
+
+// RecoveredPanicFn, when set, observes every panic recovered by the supervised loops.
+var RecoveredPanicFn func(err error)
+
+// AtFn, when set, is called at named yield points and may block the calling goroutine.
+var AtFn func(point string)
+
+// Pending describes what a worker loop could take next.
+type Pending struct {
+	Messages int  // consensus messages waiting (FIFO)
+	Election bool // an election trigger is waiting
+	Sync     bool // an UpdateState block is waiting
+	Done     bool // the context given to Run is cancelled
+}
+
+func (p Pending) Empty() bool { return p.Messages == 0 && !p.Election && !p.Sync && !p.Done }
+
+type Choice int
+
+const (
+	ChooseMessage Choice = iota
+	ChooseElection
+	ChooseSync
+	ChooseDone
+)
+
+// WorkerController lets the harness decide which ready case a worker loop's select takes.
+type WorkerController interface {
+	// Park blocks the worker at the top of its loop until the harness releases it.
+	Park()
+	// Idle tells the controller that the worker found nothing pending and waits for input.
+	Idle()
+	// Choose reports the pending set (never empty) and blocks until the harness picks one of its members.
+	Choose(p Pending) Choice
+}
+
+// ControllerFor, when set, returns the controller for the worker identified by key
+// (the *interfaces.Config the node was built with), or nil to leave that worker alone.
+var ControllerFor func(key interface{}) WorkerController
+
+func RecoveredPanic(err error) {
+	if f := RecoveredPanicFn; f != nil {
+		f(err)
+	}
+}
+
+func At(point string) {
+	if f := AtFn; f != nil {
+		f(point)
+	}
+}
